@@ -8,7 +8,8 @@
 From Coq Require Import String.
 From Emmet Require Import lib.Base lib.StyleLib gen.GenCssSnippets model.CssTokenizer model.CssParser
      model.Score model.Color model.CssSnippets model.CssResolve model.CssFormat run.StyleShow
-     proofs.StyleSweep proofs.StyleMatchProofs proofs.StyleReachProofs proofs.StyleKeywordProofs.
+     proofs.StyleSweep proofs.StyleMatchProofs proofs.StyleReachProofs proofs.StyleKeywordProofs
+     proofs.CssValuePrint proofs.CssValueReach.
 Local Open Scope N_scope.
 
 (* ---- every key of the built-in table reaches its own snippet.
@@ -172,6 +173,104 @@ Theorem C06_raw_key_reaches_property_snippet :
                  expand_with cfg sn key = Ok (own_line cfg (SnProp key prop parsed kws deps)).
 Proof. exact raw_key_reaches_property_snippet. Qed.
 Print Assumptions C06_raw_key_reaches_property_snippet.
+
+(* ---- user VALUE snippets `key: v1|v2|...`: what "<its property>: <its first listed value>" is, for ALL parsed
+   values -- any number of tokens, keywords / numbers / colours / strings / function calls nested to any depth.
+   SPEC (proofs/CssValuePrint.v): a written value is a list of [wtok] (a leaf with the text it prints as, or a call
+   with a name and comma-separated arguments); [wprint] writes tokens separated by single blanks, arguments by ", ";
+   [relabel f] replaces the i-th leaf text t (document order, from 1; names of calls are not leaves) by f i t;
+   [abs cfg v] reads a parsed value as a written value; [erase_fields] removes `${<digits>:` ... `}` from a string.
+   [printable]: the four token kinds with texts free of line breaks (push_string rewrites those), custom properties,
+   fields not glued to the previous token; [wrappable]: keywords, numbers, colours, strings, calls of those. *)
+Theorem C06_value_print :
+  forall cfg v, forallb (printable cfg) v = true -> output_value cfg v = wprint (abs cfg v).
+Proof. exact value_print. Qed.
+Print Assumptions C06_value_print.
+
+(* the value with every leaf wrapped in a tabstop ([field_of cfg i t] = what output.field returns for (i, t)) *)
+Theorem C06_value_wrapped_print :
+  forall cfg v, forallb wrappable v = true ->
+    output_value cfg (wrap_with_field cfg v) = wprint (relabel (field_of cfg) (abs cfg v)).
+Proof. exact wrapped_print. Qed.
+Print Assumptions C06_value_wrapped_print.
+
+(* ... numbered 1, 2, ..., k in document order: the leaves of the relabelled value are f 1 t1, f 2 t2, ..., f k tk *)
+Theorem C06_value_wrapped_numbering :
+  forall f ws, leaves (relabel f ws) = zipf f 1 (leaves ws).
+Proof. exact wrapped_leaves. Qed.
+Print Assumptions C06_value_wrapped_numbering.
+
+(* ERASURE: text with the fields erased = the unwrapped printing.  (a) the library's default callback prints a field
+   as its placeholder: the wrapped value prints exactly like the unwrapped one; (b) with the ${i:t} callback,
+   erasing the wrappers from the printed STRING gives the unwrapped printing (texts and names without `$` and `}`) *)
+Theorem C06_value_erase_identity :
+  forall cfg v, c_field cfg = FieldPlaceholder -> forallb wrappable v = true -> forallb (printable cfg) v = true ->
+    output_value cfg (wrap_with_field cfg v) = output_value cfg v.
+Proof. exact erase_identity. Qed.
+Print Assumptions C06_value_erase_identity.
+
+Theorem C06_value_erase_tabstop :
+  forall cfg v, c_field cfg = FieldTabstop -> forallb wrappable v = true -> forallb (printable cfg) v = true ->
+    forallb clean_tok (abs cfg v) = true ->
+    erase_fields (output_value cfg (wrap_with_field cfg v)) = output_value cfg v.
+Proof. exact erase_tabstop. Qed.
+Print Assumptions C06_value_erase_tabstop.
+
+Theorem C06_erase_relabel :
+  forall ws, forallb clean_tok ws = true -> erase_fields (wprint (relabel tabstop ws)) = wprint ws.
+Proof. exact erase_relabel. Qed.
+Print Assumptions C06_erase_relabel.
+
+(* END TO END for ALL tables (user tables included) and ALL parsed values: typing the key of a property snippet whose
+   first alternative is ONE value [v] (no top-level comma) prints `<property><between><v><after>`:
+   - unwrapped when it is the only alternative or has a field of its own;
+   - every leaf in a tabstop numbered from 1 in document order when there are >= 2 alternatives and no field.
+   [unit_given]: numbers carry a unit that is not a unit alias (resolve_numeric_value then leaves them alone; C05 owns
+   the unit rule).  PARTIAL with respect to the snippet SOURCE TEXT: the hypothesis speaks about the parsed snippet
+   (In (SnProp ...) sn); that create_snippet parses `prop:alt1|alt2` into these token lists is covered for the value
+   grammar by the tokenizer/parser theorems of C05/C18 only in part and otherwise by the correspondence (harness). *)
+Theorem C06_user_value_line_plain_partial :
+  forall cfg sn key prop v others kws deps,
+    name_ok key -> str_eqb key gradient_name = false -> c_context cfg = None -> c_json cfg = false ->
+    In (SnProp key prop ([v] :: others) kws deps) sn ->
+    (forall x, In x sn -> lower (sn_key x) = lower key -> x = SnProp key prop ([v] :: others) kws deps) ->
+    others = [] \/ has_field v = true ->
+    forallb (printable cfg) v = true -> Forall (unit_given cfg) v -> nobreakb (prop ++ c_between cfg) = true ->
+    expand_with cfg sn key = Ok (prop ++ c_between cfg ++ wprint (abs cfg v) ++ c_after cfg).
+Proof. exact user_value_line_plain. Qed.
+Print Assumptions C06_user_value_line_plain_partial.
+
+Theorem C06_user_value_line_wrapped_partial :
+  forall cfg sn key prop v o others kws deps,
+    name_ok key -> str_eqb key gradient_name = false -> c_context cfg = None -> c_json cfg = false ->
+    In (SnProp key prop ([v] :: o :: others) kws deps) sn ->
+    (forall x, In x sn -> lower (sn_key x) = lower key -> x = SnProp key prop ([v] :: o :: others) kws deps) ->
+    forallb wrappable v = true -> nobreakb (prop ++ c_between cfg) = true ->
+    expand_with cfg sn key =
+    Ok (prop ++ c_between cfg ++ wprint (relabel (field_of cfg) (abs cfg v)) ++ c_after cfg).
+Proof. exact user_value_line_wrapped. Qed.
+Print Assumptions C06_user_value_line_wrapped_partial.
+
+(* non-vacuity, with a nested call: the user table {zq: "m:f(g(1px 2px, 3px), #fff) no-repeat|none"} converts to a
+   snippet that satisfies the hypotheses of C06_user_value_line_wrapped_partial; expand prints the line below and
+   erasing the tabstops gives the value as written *)
+Example C06_value_nonvacuous :
+  let cfg := mkCfg [] None [] [] true (lit ": ") (lit ";") (lit "px") (lit "em") [] false false false f_zero true
+                   (lit "\n") [] (lit "\t") FieldTabstop in
+  let raw := [(lit "zq", lit "m:f(g(1px 2px, 3px), #fff) no-repeat|none")] in
+  exists sn v o kws deps,
+    convert_snippets raw = Ok sn /\ In (SnProp (lit "zq") (lit "m") [[v]; o] kws deps) sn /\
+    name_ok (lit "zq") /\ forallb wrappable v = true /\ forallb (printable cfg) v = true /\
+    forallb clean_tok (abs cfg v) = true /\
+    leaves (abs cfg v) = [lit "1px"; lit "2px"; lit "3px"; lit "#fff"; lit "no-repeat"] /\
+    expand_with cfg sn (lit "zq") = Ok (lit "m: f(g(${1:1px} ${2:2px}, ${3:3px}), ${4:#fff}) ${5:no-repeat};") /\
+    erase_fields (lit "m: f(g(${1:1px} ${2:2px}, ${3:3px}), ${4:#fff}) ${5:no-repeat};")
+    = lit "m: f(g(1px 2px, 3px), #fff) no-repeat;".
+Proof.
+  cbv zeta. do 5 eexists. split; [vm_compute; reflexivity|]. split; [left; reflexivity|].
+  split; [split; [discriminate|repeat constructor]|].
+  repeat split; vm_compute; reflexivity.
+Qed.
 
 (* ---- scope filter: @@section only raw snippets, @@property only property snippets, and the matcher
    only returns members of the list it is given *)
